@@ -138,24 +138,34 @@ func checkC20(R *Run) {
 				switch {
 				case dst.kind == "live" && src.kind == "temp" && stripRecv(symc(c.Args[1])) == src.base:
 					// the temp must have been fully written on the dominating success edge
-					var wr *ssa.Call
-					for _, cj := range callsIn(fn) {
-						if w, ok := cj.(*ssa.Call); ok && calleeName(&w.Call) == "os.WriteFile" && P.sym(w.Call.Args[0]) == P.sym(c.Args[0]) {
-							wr = w
-						}
-					}
-					if wr == nil {
-						R.und("atomic-replace", construct, P.ipos(ci), "the temp file renamed onto the live path is not written by os.WriteFile in the same function (accepted idiom: os.WriteFile(temp, data); os.Rename(temp, live))")
+					srcSym := P.sym(c.Args[0])
+					steps := P.writeStepsOn(fn, func(p ssa.Value) bool { return P.sym(p) == srcSym }, 0)
+					if len(steps) == 0 {
+						R.und("atomic-replace", construct, P.ipos(ci), "the temp file renamed onto the live path is not written in the same function (accepted idioms: os.WriteFile(temp, data) — or os.OpenFile(temp, O_WRONLY|O_CREATE|O_TRUNC) + Write + Close, inline or in a helper handed the temp path — then os.Rename(temp, live))")
 						continue
 					}
-					cut := map[Edge]bool{}
-					factEdges(fn, func(e Edge, f Fact) {
-						if f.Kind == "nil" && f.Holds && callValue(f.V) == wr {
-							cut[e] = true
+					good := false
+					var why []string
+					for _, st := range steps {
+						if st.data && instrDominates(st.ins, ci.(ssa.Instruction)) {
+							good = true
 						}
-					})
-					good := len(cut) > 0 && !reachable(fn, cut)[ci.Block()] && instrDominates(wr, ci.(ssa.Instruction))
-					R.check(good, "atomic-replace", construct, P.ipos(ci), "rename(temp → live) after the temp file was written successfully", "the rename onto the live file is reachable although writing the temp file did not succeed (or before it was written)")
+					}
+					if !good {
+						why = append(why, "no write of the temp file dominates the rename")
+					}
+					for _, st := range steps {
+						if st.err == nil {
+							good = false
+							why = append(why, "the error of "+st.what+" at "+P.ipos(st.ins)+" is dropped")
+							continue
+						}
+						if st.ins.Block() == ci.Block() || nilReach(st.ins, map[ssa.Value]bool{st.err: false})[ci.Block()] {
+							good = false
+							why = append(why, "the rename is reachable after "+st.what+" at "+P.ipos(st.ins)+" failed")
+						}
+					}
+					R.check(good, "atomic-replace", construct, P.ipos(ci), "rename(temp → live) after the temp file was written successfully", "the rename onto the live file is reachable although writing the temp file did not succeed (or before it was written): "+strings.Join(why, "; "))
 					hasRename = hasRename || good
 				case dst.kind == "live" && src.kind == "live" && fname(fn) == "(*mobius.YAMLAccountManager).Update":
 					R.ok("atomic-replace", construct, P.ipos(ci), "enumerated single-step exception: renaming one account file to another login is one atomic rename")
@@ -178,6 +188,12 @@ func checkC20(R *Run) {
 			switch {
 			case pc.kind == "temp" && (name == "os.WriteFile" || name == "os.Remove"):
 				R.ok("atomic-replace", construct, P.ipos(ci), "temp file next to the live file")
+			case pc.kind == "temp" && (name == "os.OpenFile" || name == "os.Create"):
+				fresh := name == "os.Create"
+				if flags, ok := constInt(c.Args[1]); name == "os.OpenFile" && ok {
+					fresh = flags&0x400 == 0 && (flags&0x200 != 0 || flags&(0x40|0x80) == 0x40|0x80)
+				}
+				R.check(fresh, "atomic-replace", construct, P.ipos(ci), "temp file next to the live file, created or truncated", "the temp file is opened without O_TRUNC (or O_CREATE|O_EXCL) or with O_APPEND: bytes of an earlier, interrupted write stay in it and are renamed onto the live file")
 			case pc.kind == "live" && name == "os.Remove" && fname(fn) == "(*mobius.YAMLAccountManager).Delete":
 				R.ok("atomic-replace", construct, P.ipos(ci), "enumerated single-step exception: deleting an account is one atomic unlink")
 			case pc.kind == "live" && name == "os.OpenFile":
@@ -223,14 +239,16 @@ func checkC20(R *Run) {
 	}
 	R.floor("persist-before-ack", 9)
 
-	// loader-skips-temp
+	// loader-skips-temp: the suffixes of every account temp path handed to a filesystem call
 	var suffixes []string
+	sufSeen := map[string]bool{}
 	for _, fn := range P.Funcs {
 		for _, ci := range callsIn(fn) {
-			if calleeName(ci.Common()) == "os.WriteFile" {
-				s := stripRecv(P.sym(ci.Common().Args[0]))
+			for _, i := range pathArgs(ci.Common()) {
+				s := stripRecv(P.symCtx(fn, ci.Common().Args[i]))
 				if pc := classifyPath(s); pc.kind == "temp" && pc.store == "mobius.YAMLAccountManager" {
-					if m := tempSuffixRe.FindStringSubmatch(s); m != nil {
+					if m := tempSuffixRe.FindStringSubmatch(s); m != nil && !sufSeen[m[2]] {
+						sufSeen[m[2]] = true
 						suffixes = append(suffixes, m[2])
 					}
 				}
@@ -248,6 +266,108 @@ func checkC20(R *Run) {
 }
 
 func init() { register("C20", checkC20) }
+
+// wstep: one fallible step of writing a whole file at a given path.
+type wstep struct {
+	ins  *ssa.Call
+	err  ssa.Value // the step's error value; nil when it is dropped
+	data bool      // the step writes the content (as opposed to opening the file)
+	what string
+}
+
+// writeStepsOn lists the steps by which fn writes the file whose path satisfies match: os.WriteFile(path, …);
+// os.OpenFile(path, write flags)/os.Create(path) and the Write/WriteString calls on the file it yields; a call
+// to a repo helper that is handed the path and is itself a whole-file writer of that parameter.
+func (P *Prog) writeStepsOn(fn *ssa.Function, match func(p ssa.Value) bool, depth int) []wstep {
+	var out []wstep
+	for _, ci := range callsIn(fn) {
+		c, ok := ci.(*ssa.Call)
+		if !ok {
+			continue
+		}
+		name := calleeName(&c.Call)
+		switch name {
+		case "os.WriteFile":
+			if match(c.Call.Args[0]) {
+				out = append(out, wstep{c, errResult(c), true, name})
+			}
+			continue
+		case "os.OpenFile", "os.Create":
+			if !match(c.Call.Args[0]) {
+				continue
+			}
+			if name == "os.OpenFile" {
+				if flags, ok := constInt(c.Call.Args[1]); ok && flags&0x3 == 0 {
+					continue // read-only
+				}
+			}
+			out = append(out, wstep{c, errResult(c), false, name})
+			for _, r := range *c.Referrers() {
+				ex, ok := r.(*ssa.Extract)
+				if !ok || ex.Index != 0 {
+					continue
+				}
+				for _, rr := range *ex.Referrers() {
+					w, ok := rr.(*ssa.Call)
+					if !ok || len(w.Call.Args) == 0 || w.Call.Args[0] != ssa.Value(ex) {
+						continue
+					}
+					switch calleeName(&w.Call) {
+					case "(*os.File).Write", "(*os.File).WriteString":
+						out = append(out, wstep{w, errResult(w), true, calleeName(&w.Call)})
+					}
+				}
+			}
+			continue
+		}
+		h, ok := c.Call.Value.(*ssa.Function)
+		if !ok || h.Blocks == nil || !P.isRepoPkg(pkgOf(h)) || depth > 0 {
+			continue
+		}
+		for k, a := range c.Call.Args {
+			if k < len(h.Params) && match(a) && P.wholeFileWriter(h, k) {
+				out = append(out, wstep{c, errResult(c), true, fname(h)})
+			}
+		}
+	}
+	return out
+}
+
+// wholeFileWriter: h writes the file named by its parameter k and returns a non-nil error whenever one of the
+// write steps failed (decided by nil-sensitive reachability from each step to the returns).
+func (P *Prog) wholeFileWriter(h *ssa.Function, k int) bool {
+	res := h.Signature.Results()
+	errIdx := -1
+	for i := 0; i < res.Len(); i++ {
+		if isErrorType(res.At(i).Type()) {
+			errIdx = i
+		}
+	}
+	if errIdx < 0 {
+		return false
+	}
+	steps := P.writeStepsOn(h, func(p ssa.Value) bool { return stripConv(p) == ssa.Value(h.Params[k]) }, 1)
+	hasData := false
+	for _, st := range steps {
+		hasData = hasData || st.data
+		if st.err == nil {
+			return false
+		}
+		leak := false
+		check := func(b *ssa.BasicBlock, ns nilState) {
+			if ret, ok := b.Instrs[len(b.Instrs)-1].(*ssa.Return); ok && errIdx < len(ret.Results) && ns.of(ret.Results[errIdx]) != 2 {
+				leak = true
+			}
+		}
+		// the step's own block may end in the return (`return os.WriteFile(…)`)
+		check(st.ins.Block(), nilState{st.err: 2})
+		nilReachVisit(st.ins, map[ssa.Value]bool{st.err: false}, check)
+		if leak {
+			return false
+		}
+	}
+	return hasData
+}
 
 var persistMemo = map[*Prog]map[*ssa.Function]bool{}
 
